@@ -238,6 +238,8 @@ func agreeObligations(runs []emitRun) (obls []emitObl, skipped int) {
 			props = []string{"C01", "C03", "C07"}
 		case "dec":
 			props = []string{"C02", "C03", "C07"}
+		case "test":
+			props = []string{"C17"}
 		default:
 			props = []string{"C07"}
 		}
@@ -246,6 +248,15 @@ func agreeObligations(runs []emitRun) (obls []emitObl, skipped int) {
 			if r.entry.Dir != "dec" {
 				props = []string{"C15"}
 			}
+		}
+		if r.entry.Dir == "test" {
+			r2 := r
+			for _, v := range vs {
+				id := fmt.Sprintf("%s:%s:%s:%s", r2.entry.Lang, r2.entry.Dir, r2.cell.ID, v.name)
+				reqs = append(reqs, cellReq{ID: id, Lang: r2.entry.Lang, Dir: r2.entry.Dir, DSL: cellDSL(r2.cell, v.opts)})
+				items = append(items, item{r2, v, id, props})
+			}
+			continue
 		}
 		switch r.cell.Kind {
 		case "checksum":
